@@ -185,7 +185,7 @@ func makeStructInfo(name string, names []string, t reflect.Type) (info structInf
 func (dec *Decoder) ReadStruct(t reflect.Type) {
 	name := dec.ReadSafeString()
 	count := dec.ReadCount()
-	names := make([]string, 0, dec.prealloc(count))
+	names := make([]string, 0, dec.preallocCount(count))
 	for i := 0; i < count && dec.Error == nil; i++ {
 		var name string
 		dec.decodeString(stringType, dec.NextByte(), &name)
